@@ -56,7 +56,9 @@ impl Ctx {
             // runs out at full size is a timeout for a candidate that is stopped earlier.
             class == self.class || (class.starts_with("killed") && self.class.starts_with("killed"))
         } else {
-            let (verdict, _) = crate::worker::run_case(&mut self.scratch, case, 0);
+            let Some((verdict, _)) = crate::worker::run_case(&mut self.scratch, case, 0) else {
+                return false;
+            };
             match verdict {
                 Verdict::Violation { class, detail } if class == self.class => {
                     self.last_detail = detail;
